@@ -203,7 +203,7 @@ Lemma do_sys_sim n vs b s t : st_eq s t -> sim eq (do_sys n vs b s) (do_sys n vs
 Proof.
   intros H Hok. pose proof H as H'. fields H'. unfold do_sys in *.
   destruct n as [|p|p]; [| |exact Hok].
-  - (* 0: exit *) destruct vs as [|v ?]; [exact Hok|]. unfold int_of in *. destruct v; try exact Hok. split; [reflexivity|exact H].
+  - (* 0: exit *) destruct vs as [|v ?]; [exact Hok|]. unfold int_of in *. destruct v; try exact Hok. split; [reflexivity|apply st_eq_start; exact H].
   - destruct p as [p|p|]; [exact Hok| |].
     + destruct p as [p|p|]; [exact Hok|exact Hok|].
       (* 2: get *)
@@ -213,6 +213,239 @@ Proof.
       * split; [reflexivity|]. unfold consume. apply note_io_eq. mk_steq.
     + (* 1: put *) destruct vs as [|b0 [|st ?]]; try exact Hok. unfold int_of in *. destruct b0; try exact Hok. destruct st; try exact Hok.
       destruct b; [exact Hok|]. split; [reflexivity|]. unfold emit. apply note_io_eq. mk_steq.
+Qed.
+
+(* ------------------------------------------------------------------ framing of the footprint: starting an evaluation with the
+   extra footprint c recorded only adds c to what is recorded at the end *)
+Definition FR (c : eff) (s t : state) : Prop := set_cur s eff0 = set_cur t eff0 /\ eff_eq (eff_union c (cur s)) (cur t).
+Definition rel2 {A : Type} (c : eff) (r r' : res A) : Prop :=
+  match r, r' with
+  | Ret a s, Ret a' t => a = a' /\ FR c s t
+  | Halt k s, Halt k' t => k = k' /\ set_cur s eff0 = set_cur t eff0
+  | Fail u, Fail u' => u = u'
+  | _, _ => False
+  end.
+
+Lemma FR_fields c s t :
+  FR c s t <-> gvars s = gvars t /\ garrs s = garrs t /\ out_rev s = out_rev t /\ input s = input t /\ ncons s = ncons t /\
+               budget s = budget t /\ stk s = stk t /\ eff_eq (eff_union c (cur s)) (cur t).
+Proof.
+  unfold FR, set_cur. destruct s, t; cbn. split.
+  - intros [H E]. inversion H; subst. repeat split; auto; apply E.
+  - intros (H1 & H2 & H3 & H4 & H5 & H6 & H7 & E). subst. split; [reflexivity|exact E].
+Qed.
+Ltac ffields H := apply FR_fields in H; destruct H as (?Hgv & ?Hga & ?Hout & ?Hin & ?Hnc & ?Hbu & ?Hstk & ?Hcur).
+Ltac mk_fr := apply FR_fields; cbn; repeat match goal with |- _ /\ _ => split end; try assumption; try reflexivity; try congruence.
+
+Lemma FR_top c s t : FR c s t -> top s = top t.
+Proof. intros H. ffields H. unfold top. rewrite Hstk. reflexivity. Qed.
+Lemma FR_start c s t : FR c s t -> set_cur s eff0 = set_cur t eff0. Proof. intros [A _]. exact A. Qed.
+
+Lemma FR_note_rd c x s t : FR c s t -> FR c (note_rd x s) (note_rd x t).
+Proof.
+  intros H. ffields H. unfold note_rd, set_cur. mk_fr. destruct Hcur as (A & B & C). split; [|split]; cbn in *; auto.
+  intros y. rewrite mem_union, !mem_add, <- A, mem_union. destruct (mem_str y (e_rd c)), (String.eqb y x), (mem_str y (e_rd (cur s))); reflexivity.
+Qed.
+Lemma FR_note_wr c x s t : FR c s t -> FR c (note_wr x s) (note_wr x t).
+Proof.
+  intros H. ffields H. unfold note_wr, set_cur. mk_fr. destruct Hcur as (A & B & C). split; [|split]; cbn in *; auto.
+  intros y. rewrite mem_union, !mem_add, <- B, mem_union. destruct (mem_str y (e_wr c)), (String.eqb y x), (mem_str y (e_wr (cur s))); reflexivity.
+Qed.
+Lemma FR_note_io c s t : FR c s t -> FR c (note_io s) (note_io t).
+Proof.
+  intros H. ffields H. unfold note_io, set_cur. mk_fr. destruct Hcur as (A & B & C). split; [|split]; cbn in *; auto.
+  apply orb_true_r.
+Qed.
+Lemma FR_set_budget c s t b : FR c s t -> FR c (set_budget s b) (set_budget t b).
+Proof. intros H. ffields H. mk_fr. Qed.
+Lemma FR_set_stk c s t k : FR c s t -> FR c (set_stk s k) (set_stk t k).
+Proof. intros H. ffields H. mk_fr. Qed.
+Lemma FR_set_gvars c s t g : FR c s t -> FR c (set_gvars s g) (set_gvars t g).
+Proof. intros H. ffields H. mk_fr. Qed.
+Lemma FR_set_garrs c s t g : FR c s t -> FR c (set_garrs s g) (set_garrs t g).
+Proof. intros H. ffields H. mk_fr. Qed.
+Lemma FR_pop c s t : FR c s t -> FR c (pop s) (pop t).
+Proof. intros H. unfold pop. pose proof H as H'. ffields H'. rewrite Hstk. apply FR_set_stk. exact H. Qed.
+
+Lemma rel2_ret {A} c (a : A) s t : FR c s t -> rel2 c (Ret a s) (Ret a t).
+Proof. intros H. split; [reflexivity|exact H]. Qed.
+Lemma rel2_fail {A} c u : @rel2 A c (Fail u) (Fail u). Proof. reflexivity. Qed.
+
+Lemma rel2_bind {A B} c (r r' : res A) (k k' : A -> state -> res B) :
+  rel2 c r r' -> (forall a s1 t1, FR c s1 t1 -> rel2 c (k a s1) (k' a t1)) -> rel2 c (bind r k) (bind r' k').
+Proof.
+  intros H1 H2. destruct r as [a s1|k0 s1|u], r' as [a' t1|k1 t1|u']; cbn in H1; try contradiction; cbn [bind rcase].
+  - destruct H1 as [Ha Hs]. subst a'. apply H2. exact Hs.
+  - exact H1.
+  - exact H1.
+Qed.
+Lemma rel2_int_of {B} c v (k k' : Z -> res B) : (forall n, rel2 c (k n) (k' n)) -> rel2 c (int_of v k) (int_of v k').
+Proof. intros H. destruct v; cbn; try reflexivity. apply H. Qed.
+Lemma rel2_bool_of {B} c v (k k' : bool -> res B) : (forall b, rel2 c (k b) (k' b)) -> rel2 c (bool_of v k) (bool_of v k').
+Proof. intros H. unfold bool_of. apply rel2_int_of. intros n. destruct (n =? 0); [apply H|]. destruct (n =? 1); [apply H|reflexivity]. Qed.
+Lemma rel2_tick {B} c s t (k k' : state -> res B) :
+  FR c s t -> (forall s0 t0, FR c s0 t0 -> rel2 c (k s0) (k' t0)) -> rel2 c (tick s k) (tick t k').
+Proof.
+  intros H Hk. unfold tick. pose proof H as H'. ffields H'. rewrite <- Hbu. destruct (budget s <=? 0); [reflexivity|].
+  apply Hk. apply FR_set_budget. exact H.
+Qed.
+
+Lemma eff_union_assoc a b d : eff_eq (eff_union a (eff_union b d)) (eff_union (eff_union a b) d).
+Proof. unfold eff_union. split; [|split]; cbn; intros; rewrite ?mem_union, ?orb_assoc; reflexivity. Qed.
+
+(* inside with_eff the two evaluations start from the same state: identical results; the difference c stays outside *)
+Lemma rel2_with_eff {A} c (m : state -> res A) s t : FR c s t -> rel2 c (with_eff m s) (with_eff m t).
+Proof.
+  intros H. unfold with_eff. rewrite <- (FR_start c s t H).
+  destruct (m (set_cur s eff0)) as [a s'|k s'|u]; cbn [rcase].
+  - split; [reflexivity|]. split; [rewrite !same_set_cur; reflexivity|].
+    assert (CS : forall x k, cur (set_cur x k) = k) by (intros x k; destruct x; reflexivity). rewrite !CS.
+    eapply eff_eq_trans; [apply eff_union_assoc|]. apply eff_union_eq; [apply H|apply eff_eq_refl].
+  - split; reflexivity.
+  - reflexivity.
+Qed.
+
+Lemma fr_read_var c ge x s t : FR c s t -> rel2 c (read_var ge x s) (read_var ge x t).
+Proof.
+  intros H. pose proof (FR_top c s t H) as Ht. pose proof H as H'. ffields H'.
+  unfold read_var. rewrite <- Ht, <- Hgv, <- Hga.
+  destruct (assoc x (f_vars (top s))) as [[| | |]|]; try reflexivity; try (apply rel2_ret; exact H).
+  destruct (assoc x (f_vals (top s))); [apply rel2_ret; exact H|].
+  destruct (assoc x (g_vals ge)); [apply rel2_ret; exact H|].
+  destruct (assoc x (gvars s)) as [[| | |]|]; try reflexivity; try (apply rel2_ret; apply FR_note_rd; exact H).
+  destruct (assoc x (garrs s)); [apply rel2_ret; exact H|reflexivity].
+Qed.
+Lemma fr_resolve_array c ge a s t : FR c s t -> rel2 c (resolve_array ge a s) (resolve_array ge a t).
+Proof.
+  intros H. pose proof (FR_top c s t H) as Ht. pose proof H as H'. ffields H'.
+  unfold resolve_array. rewrite <- Ht, <- Hga.
+  destruct (assoc a (f_vars (top s))) as [[| | |]|]; try reflexivity; try (apply rel2_ret; exact H).
+  destruct (assoc a (f_vals (top s))); [reflexivity|]. destruct (assoc a (garrs s)); [apply rel2_ret; exact H|reflexivity].
+Qed.
+Lemma fr_call_target c ge f s t : FR c s t -> call_target ge f t = call_target ge f s.
+Proof. intros H. unfold call_target. rewrite <- (FR_top c s t H). reflexivity. Qed.
+Lemma fr_read_elem c av a i s t : FR c s t -> rel2 c (read_elem av a i s) (read_elem av a i t).
+Proof.
+  intros H. pose proof H as H'. ffields H'. unfold read_elem. destruct av; try reflexivity.
+  - rewrite <- Hga. destruct (assoc a0 (garrs s)); [|reflexivity]. destruct ((0 <=? i) && (i <? alen a1)); [|reflexivity].
+    destruct (PositiveMap.find (cell i) (acells a1)) as [[| | |]|]; try reflexivity. apply rel2_ret. apply FR_note_rd. exact H.
+  - destruct ((0 <=? i) && (i <? Z.of_nat (Datatypes.length ws))); [apply rel2_ret; exact H|reflexivity].
+Qed.
+Lemma fr_write_elem c av a i n s t : FR c s t -> rel2 c (write_elem av a i n s) (write_elem av a i n t).
+Proof.
+  intros H. pose proof H as H'. ffields H'. unfold write_elem. destruct av; try reflexivity.
+  rewrite <- Hga. destruct (assoc a0 (garrs s)); [|reflexivity]. destruct ((0 <=? i) && (i <? alen a1)); [|reflexivity].
+  apply rel2_ret. apply FR_note_wr. apply FR_set_garrs. exact H.
+Qed.
+Lemma fr_assign c ge x n s t : FR c s t -> rel2 c (assign ge x n s) (assign ge x n t).
+Proof.
+  intros H. pose proof H as H'. ffields H'. unfold assign. rewrite <- Hstk, <- Hgv.
+  destruct (stk s) as [|fr rest]; [reflexivity|].
+  destruct (assoc x (f_vars fr)) as [[| | |]|]; try reflexivity; try (apply rel2_ret; apply FR_set_stk; exact H).
+  destruct (assoc x (f_vals fr)); [reflexivity|]. destruct (assoc x (g_vals ge)); [reflexivity|].
+  destruct (assoc x (gvars s)); [|reflexivity]. apply rel2_ret. apply FR_note_wr. apply FR_set_gvars. exact H.
+Qed.
+Lemma fr_do_sys c n vs b s t : FR c s t -> rel2 c (do_sys n vs b s) (do_sys n vs b t).
+Proof.
+  intros H. pose proof H as H'. ffields H'. unfold do_sys.
+  destruct n as [|p|p]; [| |reflexivity].
+  - destruct vs as [|v ?]; [reflexivity|]. unfold int_of. destruct v; try reflexivity. split; [reflexivity|apply H].
+  - destruct p as [p|p|]; [reflexivity| |].
+    + destruct p as [p|p|]; [reflexivity|reflexivity|].
+      destruct vs as [|st ?]; [reflexivity|]. unfold int_of. destruct st; try reflexivity.
+      destruct (n <? 256); [|reflexivity]. rewrite <- Hin. destruct (input s).
+      * apply rel2_ret. apply FR_note_io. exact H.
+      * apply rel2_ret. unfold consume. apply FR_note_io. mk_fr.
+    + destruct vs as [|b0 [|st ?]]; try reflexivity. unfold int_of. destruct b0; try reflexivity. destruct st; try reflexivity.
+      destruct b; [reflexivity|]. apply rel2_ret. unfold emit. apply FR_note_io. mk_fr.
+Qed.
+
+Lemma enter_top_fr ge q vs s t : top s = top t -> enter ge q vs s = enter ge q vs t.
+Proof. intros H. unfold enter. rewrite H. reflexivity. Qed.
+
+Section Bodies.
+  Variables (c : eff) (ge : genv)
+            (ev : expr -> state -> res value)
+            (evs : list expr -> state -> res (list (value * eff)))
+            (ex : stmt -> state -> res flow)
+            (exs : list stmt -> state -> res flow).
+  Hypothesis Hev : forall e s t, FR c s t -> rel2 c (ev e s) (ev e t).
+  Hypothesis Hevs : forall es s t, FR c s t -> rel2 c (evs es s) (evs es t).
+  Hypothesis Hex : forall st s t, FR c s t -> rel2 c (ex st s) (ex st t).
+  Hypothesis Hexs : forall ss s t, FR c s t -> rel2 c (exs ss s) (exs ss t).
+
+  Lemma fr_evals_body es s t : FR c s t -> rel2 c (evals_body ev evs es s) (evals_body ev evs es t).
+  Proof.
+    intros H. destruct es as [|e r]; [apply rel2_ret; exact H|]. unfold evals_body.
+    pose proof (rel2_with_eff c (ev e) s t H) as Hw.
+    destruct (with_eff (ev e) s) as [ve s1|k s1|u], (with_eff (ev e) t) as [ve' t1|k' t1|u']; cbn in Hw; try contradiction; cbn [rcase].
+    - destruct Hw as [Hv Hs1]. subst ve'. specialize (Hevs r s1 t1 Hs1).
+      destruct (evs r s1) as [l s2|k s2|u], (evs r t1) as [l' t2|k' t2|u']; cbn in Hevs; try contradiction; cbn [rcase].
+      + destruct Hevs as [Hl Hs2]. subst l'. apply rel2_ret. exact Hs2.
+      + destruct (e_io (snd ve)); [reflexivity|exact Hevs].
+      + exact Hevs.
+    - destruct (forallb harmless r); [exact Hw|reflexivity].
+    - exact Hw.
+  Qed.
+  Lemma fr_operands es s t : FR c s t -> rel2 c (operands evs es s) (operands evs es t).
+  Proof.
+    intros H. unfold operands. apply rel2_bind; [apply Hevs; exact H|]. intros l s1 t1 Hs1.
+    destruct (conflicts (map snd l)); [reflexivity|apply rel2_ret; exact Hs1].
+  Qed.
+  Lemma fr_invoke w f vs s t : FR c s t -> rel2 c (invoke ex ge w f vs s) (invoke ex ge w f vs t).
+  Proof.
+    intros H. unfold invoke. destruct (find_proc f (g_procs ge)) as [p|]; [|reflexivity].
+    destruct (negb (Bool.eqb (is_func p) w)); [reflexivity|].
+    rewrite (enter_top_fr ge p vs t s (eq_sym (FR_top c s t H))). destruct (enter ge p vs s) as [u|fr]; [reflexivity|].
+    apply rel2_tick; [exact H|]. intros s0 t0 Hs0.
+    assert (Hstk : stk s0 = stk t0) by (apply FR_fields in Hs0; tauto).
+    apply rel2_bind; [rewrite <- Hstk; apply Hex; apply FR_set_stk; exact Hs0|]. intros fl s2 t2 Hs2.
+    destruct fl; destruct w; try reflexivity; try (apply rel2_ret; apply FR_pop; exact Hs2).
+    destruct v; try reflexivity. apply rel2_ret. apply FR_pop. exact Hs2.
+  Qed.
+
+  Ltac fr :=
+    repeat first
+      [ reflexivity | assumption
+      | apply rel2_ret; assumption
+      | apply Hev; assumption | apply Hevs; assumption | apply Hex; assumption | apply Hexs; assumption
+      | apply fr_read_var; assumption | apply fr_resolve_array; assumption | apply fr_read_elem; assumption
+      | apply fr_write_elem; assumption | apply fr_assign; assumption | apply fr_do_sys; assumption
+      | apply fr_operands; assumption | apply fr_invoke; assumption
+      | apply rel2_bind; [ | intros ]
+      | apply rel2_int_of; intros
+      | apply rel2_bool_of; intros
+      | match goal with
+        | |- rel2 _ (match ?x with _ => _ end) (match ?x with _ => _ end) => destruct x
+        | |- rel2 _ (if ?x then _ else _) (if ?x then _ else _) => destruct x
+        | |- rel2 _ (Halt _ _) (Halt _ _) => split; [reflexivity|eapply FR_start; eassumption]
+        end ].
+
+  Lemma fr_eval_body e s t : FR c s t -> rel2 c (eval_body ev evs ex ge e s) (eval_body ev evs ex ge e t).
+  Proof.
+    intros H. destruct e as [n|b|bs|x|a i|f args|n args|o a|o l r]; cbn [eval_body]; try rewrite (fr_call_target c ge f s t H); try solve [fr].
+  Qed.
+  Lemma fr_exec_body st s t : FR c s t -> rel2 c (exec_body ev evs ex exs ge st s) (exec_body ev evs ex exs ge st t).
+  Proof.
+    intros H. unfold exec_body. apply rel2_tick; [exact H|]. intros s0 t0 H0.
+    destruct st; try rewrite (fr_call_target c ge f s0 t0 H0); solve [fr].
+  Qed.
+  Lemma fr_execs_body ss s t : FR c s t -> rel2 c (execs_body ex exs ss s) (execs_body ex exs ss t).
+  Proof. intros H. destruct ss as [|st r]; cbn [execs_body]; fr. Qed.
+End Bodies.
+
+Lemma frame_all c ge : forall f,
+  (forall e s t, FR c s t -> rel2 c (eval f ge e s) (eval f ge e t)) /\
+  (forall es s t, FR c s t -> rel2 c (evals f ge es s) (evals f ge es t)) /\
+  (forall st s t, FR c s t -> rel2 c (exec f ge st s) (exec f ge st t)) /\
+  (forall ss s t, FR c s t -> rel2 c (execs f ge ss s) (execs f ge ss t)).
+Proof.
+  induction f as [|f (H1 & H2 & H3 & H4)]; [repeat split; intros; reflexivity|].
+  repeat split; intros.
+  - apply (fr_eval_body c ge (eval f ge) (evals f ge) (exec f ge) H1 H2 H3). assumption.
+  - apply (fr_evals_body c (eval f ge) (evals f ge) H2). assumption.
+  - apply (fr_exec_body c ge (eval f ge) (evals f ge) (exec f ge) (execs f ge) H1 H2 H3 H4). assumption.
+  - apply (fr_execs_body c (exec f ge) (execs f ge) H3 H4). assumption.
 Qed.
 
 (* ------------------------------------------------------------------ the stack keeps its shape *)
@@ -695,7 +928,7 @@ Qed.
 Lemma sim_ret {A} (R : A -> A -> Prop) a a' s t : R a a' -> st_eq s t -> sim R (Ret a s) (Ret a' t).
 Proof. intros H1 H2 _. split; assumption. Qed.
 Lemma sim_halt {A} (R : A -> A -> Prop) c s t : st_eq s t -> sim R (Halt c s) (Halt c t).
-Proof. intros H2 _. split; [reflexivity|assumption]. Qed.
+Proof. intros H2 _. split; [reflexivity|apply st_eq_start; assumption]. Qed.
 Lemma sim_fail {A} (R : A -> A -> Prop) u r' : sim R (Fail u) r'.
 Proof. intros Ho. exfalso; exact Ho. Qed.
 Lemma sim_tick {B} (R : B -> B -> Prop) s t (k k' : state -> res B) :
@@ -754,6 +987,86 @@ Proof. intros H. apply frame_inv_shape. pose proof (proj1 (shape_all ge f) e s) 
 Lemma frame_inv_steq ge E s t : st_eq s t -> frame_inv ge E (top s) -> frame_inv ge E (top t).
 Proof. intros H. rewrite (top_eq s t H). auto. Qed.
 
+Lemma conflicts2 a b : conflicts [a; b] = conflict a b.
+Proof. cbn. rewrite !orb_false_r. reflexivity. Qed.
+Lemma cur_set_cur s c : cur (set_cur s c) = c. Proof. destruct s; reflexivity. Qed.
+Lemma eff_eq_union_l0 c a : eff_eq a eff0 -> eff_eq (eff_union c a) c.
+Proof. intros H. eapply eff_eq_trans; [apply eff_union_eq; [apply eff_eq_refl|exact H]|apply eff_union_eff0]. Qed.
+
+Lemma inter_sym a b : inter_str a b = inter_str b a.
+Proof. apply eq_true_iff_eq. rewrite !inter_spec. split; intros (x & H1 & H2); exists x; auto. Qed.
+Lemma conflict_sym a b : conflict a b = conflict b a.
+Proof.
+  unfold conflict. rewrite (inter_sym (e_wr a) (e_wr b)), (andb_comm (e_io a)).
+  destruct (inter_str (e_wr a) (e_rd b)), (inter_str (e_wr b) (e_wr a)), (inter_str (e_wr b) (e_rd a)), (e_io b && e_io a); reflexivity.
+Qed.
+Lemma conflict_eff0_r a : conflict a eff0 = false.
+Proof. unfold conflict, eff0. cbn. rewrite !inter_nil_r, andb_false_r. reflexivity. Qed.
+Lemma conflict_eff0_l a : conflict eff0 a = false.
+Proof. rewrite conflict_sym. apply conflict_eff0_r. Qed.
+
+(* operands of a two-element list, unfolded: first element at fuel f, second at fuel f1, f = S f1, f1 = S f2 *)
+Lemma operands2 g f2 a b s :
+  operands (evals (S (S (S f2))) g) [a; b] s =
+  match eval (S (S f2)) g a (set_cur s eff0) with
+  | Ret va sa =>
+      let s1 := set_cur sa (eff_union (cur s) (cur sa)) in
+      match eval (S f2) g b (set_cur s1 eff0) with
+      | Ret vb sb =>
+          let s2 := set_cur sb (eff_union (cur s1) (cur sb)) in
+          if conflicts [cur sa; cur sb] then Fail OrderDependent else Ret [va; vb] s2
+      | Halt c sb => if e_io (cur sa) then Fail OrderDependent else Halt c sb
+      | Fail u => Fail u
+      end
+  | Halt c sa => if harmless b then Halt c sa else Fail OrderDependent
+  | Fail u => Fail u
+  end.
+Proof.
+  unfold operands. cbn [evals evals_body]. unfold with_eff at 1.
+  destruct (eval (S (S f2)) g a (set_cur s eff0)) as [va sa|c sa|u]; cbn [rcase bind]; [| |reflexivity].
+  - unfold with_eff. destruct (eval (S f2) g b (set_cur (set_cur sa (eff_union (cur s) (cur sa))) eff0)) as [vb sb|c sb|u]; cbn [rcase bind snd fst map]; try reflexivity.
+    destruct (e_io (cur sa)); reflexivity.
+  - cbn [forallb]. rewrite andb_true_r. destruct (harmless b); reflexivity.
+Qed.
+
+
+(* an expression that evaluates to the constant c whatever the state, without touching it *)
+Definition is_lit (g : genv) (L : expr) (c : Z) : Prop := forall F s, eval (S F) g L s = Ret (Vint c) s.
+
+Lemma lit_is_lit g c : in_int c = true -> is_lit g (lit c) c.
+Proof. intros H F s. unfold lit. cbn. rewrite signed32_mod, signed32_small by exact H. reflexivity. Qed.
+
+(* the un-optimised reading of a constant node is such a literal *)
+Lemma erase_lit g E e ae c : cp_expr E e = COk ae -> const_of ae = Some c -> in_int c = true -> is_lit g (erase ae) c.
+Proof.
+  intros Hcp Hc Hi. destruct e; cbn [cp_expr] in Hcp.
+  - inversion Hcp; subst ae. cbn in Hc. inversion Hc. intros F s. reflexivity.
+  - inversion Hcp; subst ae. cbn in Hc. inversion Hc. intros F s. cbn. destruct b; reflexivity.
+  - inversion Hcp; subst ae. discriminate.
+  - destruct (resolve E x); inversion Hcp; subst ae; cbn in Hc; try discriminate. inversion Hc; subst. apply lit_is_lit. exact Hi.
+  - destruct (cp_expr E e); cbn in Hcp; inversion Hcp; subst ae; discriminate.
+  - pose proof (cp_call_shape E (ECall f args) ae Hcp) as H. cbn in H. congruence.
+  - pose proof (cp_call_shape E (ESys n args) ae Hcp) as H. cbn in H. congruence.
+  - destruct (cp_expr E e) as [a'| |]; cbn [cbind] in Hcp; try discriminate.
+    destruct (const_of a'); [|inversion Hcp; subst ae; discriminate].
+    destruct (fold_un (cp_arith E) o z); cbn [cbind] in Hcp; inversion Hcp; subst ae. cbn in Hc. inversion Hc; subst. apply lit_is_lit. exact Hi.
+  - destruct (cp_expr E e1) as [l'| |]; cbn [cbind] in Hcp; try discriminate.
+    destruct (cp_expr E e2) as [r'| |]; cbn [cbind] in Hcp; try discriminate.
+    destruct (const_of l'); [|inversion Hcp; subst ae; discriminate].
+    destruct (const_of r'); [|inversion Hcp; subst ae; discriminate].
+    destruct (fold_bin (cp_arith E) o z z0); cbn [cbind] in Hcp; inversion Hcp; subst ae. cbn in Hc. inversion Hc; subst. apply lit_is_lit. exact Hi.
+Qed.
+
+(* two literal operands *)
+Lemma operands_lit g L R cl cr f2 t : is_lit g L cl -> is_lit g R cr ->
+  exists t2, operands (evals (S (S (S f2))) g) [L; R] t = Ret [Vint cl; Vint cr] t2 /\ st_eq t2 t.
+Proof.
+  intros HL HR. rewrite operands2, HL. cbv zeta. rewrite HR. rewrite conflicts2, ?cur_set_cur, conflict_eff0_l.
+  eexists. split; [reflexivity|]. apply st_eq_set_cur.
+  - rewrite ?same_set_cur. reflexivity.
+  - rewrite ?cur_set_cur. eapply eff_eq_trans; [apply eff_union_eff0|]. rewrite ?cur_set_cur. apply eff_union_eff0.
+Qed.
+
 Definition T (ae : aexpr) : expr := erase (opt_expr ae).
 Definition Ts (l : list aexpr) : list expr := map T l.
 Definition TS (a : astmt) : stmt := erase_stmt (opt_stmt a).
@@ -765,7 +1078,7 @@ Lemma lit_eval_ge ge F c t : in_int c = true -> eval (S F) ge (lit c) t = Ret (V
 Proof. intros H. unfold lit. cbn. rewrite signed32_mod, signed32_small by exact H. reflexivity. Qed.
 
 (* the reading of a constant node is a literal of its value *)
-Lemma T_const ge E e ae c : cp_expr E e = COk ae -> const_of ae = Some c -> swap_safe ae = true -> in_int c = true ->
+Lemma T_const ge E e ae c : cp_expr E e = COk ae -> const_of ae = Some c -> harmless (T ae) = true -> in_int c = true ->
   forall F t, eval (S F) ge (T ae) t = Ret (Vint c) t.
 Proof.
   intros Hcp Hc Hs Hi F t. destruct e; cbn [cp_expr] in Hcp.
@@ -786,7 +1099,33 @@ Proof.
     destruct (const_of l'); [|inversion Hcp; subst ae; discriminate].
     destruct (const_of r'); [|inversion Hcp; subst ae; discriminate].
     destruct (fold_bin (cp_arith E) o z z0); cbn [cbind] in Hcp; inversion Hcp; subst ae. cbn in Hc. inversion Hc; subst.
-    cbn [swap_safe] in Hs. unfold T. destruct o; cbn in Hs; try discriminate; cbn [opt_expr erase]; apply lit_eval_ge; exact Hi.
+    unfold T in *. destruct o; cbn in Hs; try discriminate; cbn [opt_expr erase]; apply lit_eval_ge; exact Hi.
+Qed.
+
+(* a constant node reads as a literal, unless its top operator is one of the rewritten ones *)
+Lemma const_shape E e ae c : cp_expr E e = COk ae -> const_of ae = Some c ->
+  harmless (T ae) = true \/
+  exists o l r l' r' cl cr, e = EBin o l r /\ ae = ABin o (Some c) l' r' /\ is_rw o = true /\ cp_expr E l = COk l' /\ cp_expr E r = COk r' /\
+                            const_of l' = Some cl /\ const_of r' = Some cr /\ fold_bin (cp_arith E) o cl cr = COk c.
+Proof.
+  intros Hcp Hc. destruct e; cbn [cp_expr] in Hcp.
+  - inversion Hcp; subst ae. left. reflexivity.
+  - inversion Hcp; subst ae. left. reflexivity.
+  - inversion Hcp; subst ae. discriminate.
+  - destruct (resolve E x); inversion Hcp; subst ae; cbn in Hc; try discriminate. left. reflexivity.
+  - destruct (cp_expr E e); cbn in Hcp; inversion Hcp; subst ae; discriminate.
+  - pose proof (cp_call_shape E (ECall f args) ae Hcp) as H. cbn in H. congruence.
+  - pose proof (cp_call_shape E (ESys n args) ae Hcp) as H. cbn in H. congruence.
+  - destruct (cp_expr E e) as [a'| |]; cbn [cbind] in Hcp; try discriminate.
+    destruct (const_of a'); [|inversion Hcp; subst ae; discriminate].
+    destruct (fold_un (cp_arith E) o z); cbn [cbind] in Hcp; inversion Hcp; subst ae. left. unfold T. rewrite erase_opt_un_some. reflexivity.
+  - destruct (cp_expr E e1) as [l'| |] eqn:El; cbn [cbind] in Hcp; try discriminate.
+    destruct (cp_expr E e2) as [r'| |] eqn:Er; cbn [cbind] in Hcp; try discriminate.
+    destruct (const_of l') as [cl|] eqn:Ecl; [|inversion Hcp; subst ae; discriminate].
+    destruct (const_of r') as [cr|] eqn:Ecr; [|inversion Hcp; subst ae; discriminate].
+    destruct (fold_bin (cp_arith E) o cl cr) as [z| |] eqn:Ef; cbn [cbind] in Hcp; inversion Hcp; subst ae. cbn in Hc. inversion Hc; subst z.
+    destruct (is_rw o) eqn:Erw; [right; exists o, e1, e2, l', r', cl, cr; repeat split; auto|].
+    left. unfold T. destruct o; cbn in Erw; try discriminate; reflexivity.
 Qed.
 
 Lemma do_sys_other n vs b s : n <> 0 -> n <> 1 -> n <> 2 -> ~ ok (do_sys n vs b s).
@@ -912,6 +1251,45 @@ Section Step.
   Lemma eval_not_unfold F g x t : eval (S F) g (EUn Not x) t = bind (eval F g x t) knot.
   Proof. reflexivity. Qed.
 
+  (* a constant comparison that OptimiseExpr rewrites into run-time code over its un-optimised (literal) operands *)
+  Lemma const_rw_eval E o l r l' r' cl cr c f s t F1 :
+    is_rw o = true -> cp_expr E l = COk l' -> cp_expr E r = COk r' -> const_of l' = Some cl -> const_of r' = Some cr ->
+    fold_bin (cp_arith E) o cl cr = COk c -> env_range E -> frame_inv ge E (top s) ->
+    ok (eval (S f) ge (EBin o l r) s) -> (4 <= F1)%nat ->
+    exists t', eval (S F1) ge' (rw_bin o (erase l') (erase r')) t = Ret (Vint c) t' /\ st_eq t' t.
+  Proof.
+    intros Hrw Hl Hr Hcl Hcr Hf Hrng Hfi Ho HF.
+    destruct (const_eval ge E Hrng l l' cl Hl Hcl) as [Icl CLl]. destruct (const_eval ge E Hrng r r' cr Hr Hcr) as [Icr CLr].
+    assert (Ptop : forall s t : state, top s = top t -> frame_inv ge E (top s) -> frame_inv ge E (top t)) by (intros; eapply frame_inv_top; eauto).
+    (* the source evaluation is defined: the comparison of the two constants is *)
+    assert (Hb : exists z, binop_ans o cl cr = inr z).
+    { rewrite eval_bin_unfold in Ho by (destruct o; discriminate).
+      destruct (operands (evals f ge) [l; r] s) as [vs s1|c0 s1|u] eqn:Eo; cbn [bind rcase] in Ho; [| |exfalso; exact Ho].
+      - destruct (operands_CL ge _ Ptop [l; r] [cl; cr] (Forall2_cons _ _ CLl (Forall2_cons _ _ CLr (Forall2_nil _))) f s _ Hfi Eo I) as (s1' & A & B).
+        inversion A; subst vs s1'. cbn [map kbin int_of] in Ho. destruct (binop_ans o cl cr); [exfalso; exact Ho|eauto].
+      - destruct (operands_CL ge _ Ptop [l; r] [cl; cr] (Forall2_cons _ _ CLl (Forall2_cons _ _ CLr (Forall2_nil _))) f s _ Hfi Eo I) as (s1' & A & B). discriminate. }
+    destruct Hb as [z Hz].
+    pose proof (erase_lit ge' E l l' cl Hl Hcl Icl) as LL. pose proof (erase_lit ge' E r r' cr Hr Hcr Icr) as LR.
+    destruct F1 as [|[|[|[|f2]]]]; try lia.
+    destruct o; try discriminate; cbn [rw_bin fold_bin binop_ans] in *.
+    - (* Ne *) rewrite eval_not_unfold, eval_bin_unfold by discriminate.
+      destruct (operands_lit ge' _ _ cl cr f2 t LL LR) as (t2 & E2 & S2). rewrite E2. cbn [bind rcase kbin int_of binop_ans].
+      rewrite knot_of_bool. inversion Hf; subst c. exists t2. split; [reflexivity|exact S2].
+    - (* Le *) rewrite eval_not_unfold, eval_bin_unfold by discriminate.
+      destruct (operands_lit ge' _ _ cr cl f2 t LR LL) as (t2 & E2 & S2). rewrite E2. cbn [bind rcase kbin int_of binop_ans].
+      rewrite (andb_comm (in_int (cr - cl))). destruct (in_int (cl - cr) && in_int (cr - cl)); [|discriminate].
+      cbn [bind rcase]. rewrite knot_of_bool, <- Z.leb_antisym. inversion Hf; subst c. exists t2. split; [reflexivity|exact S2].
+    - (* Gr *) destruct (S (S (S (S f2)))) as [|F2] eqn:EF; [discriminate|]. injection EF as EF. subst F2.
+      rewrite eval_bin_unfold by discriminate.
+      destruct (operands_lit ge' _ _ cr cl (S f2) t LR LL) as (t2 & E2 & S2). rewrite E2. cbn [bind rcase kbin int_of binop_ans].
+      rewrite (andb_comm (in_int (cr - cl))). destruct (in_int (cl - cr) && in_int (cr - cl)); [|discriminate].
+      inversion Hf; subst c. exists t2. split; [reflexivity|exact S2].
+    - (* Ge *) rewrite eval_not_unfold, eval_bin_unfold by discriminate.
+      destruct (operands_lit ge' _ _ cl cr f2 t LL LR) as (t2 & E2 & S2). rewrite E2. cbn [bind rcase kbin int_of binop_ans].
+      destruct (in_int (cl - cr) && in_int (cr - cl)); [|discriminate].
+      cbn [bind rcase]. rewrite knot_of_bool, <- Z.leb_antisym. inversion Hf; subst c. exists t2. split; [reflexivity|exact S2].
+  Qed.
+
   Lemma SE_step f : SE ge ge' f -> SEs ge ge' f -> SX ge ge' f -> SWAP ge ge' f -> SE ge ge' (S f).
   Proof.
     intros HE HEs HX HSW F E e ae s t HF Hcp Hss Hrng Hfi Hst.
@@ -919,8 +1297,14 @@ Section Step.
     destruct (const_of ae) as [c|] eqn:Ec.
     { (* constant node *)
       destruct (const_eval ge E Hrng e ae c Hcp Ec) as [Hc CLc]. intros Ho.
-      pose proof (CLc (S f) s _ Hfi eq_refl Ho) as H. rewrite (T_const ge' E e ae c Hcp Ec Hss Hc F1 t).
-      eapply res_eq_st; eauto. }
+      pose proof (CLc (S f) s _ Hfi eq_refl Ho) as H.
+      destruct (const_shape E e ae c Hcp Ec) as [Hh|(o & l & r & l' & r' & cl & cr & He & Hae & Hrw & Hl & Hr & Hcl & Hcr & Hfb)].
+      - rewrite (T_const ge' E e ae c Hcp Ec Hh Hc F1 t). eapply res_eq_st; eauto.
+      - subst e ae. unfold T. replace (erase (opt_expr (ABin o (Some c) l' r'))) with (rw_bin o (erase l') (erase r')) by (destruct o; try discriminate; reflexivity).
+        assert (Hf1 : (1 <= f)%nat).
+        { destruct f; [|lia]. exfalso. rewrite eval_bin_unfold in Ho by (destruct o; discriminate). exact Ho. }
+        destruct (const_rw_eval E o l r l' r' cl cr c f s t F1 Hrw Hl Hr Hcl Hcr Hfb Hrng Hfi Ho ltac:(clear - HF1 Hf1; lia)) as (t' & Et & St).
+        rewrite Et. eapply res_eq_st; [exact H|]. eapply st_eq_trans; [exact Hst|apply st_eq_sym; exact St]. }
     destruct e as [n|b|bs|x|a i|fn args|n args|o a|o l r]; cbn [cp_expr] in Hcp.
     - inversion Hcp; subst ae; discriminate.
     - inversion Hcp; subst ae; discriminate.
@@ -983,10 +1367,37 @@ Section Step.
     - (* EUn *) destruct (cp_expr E a) as [a'| |] eqn:Ea; cbn [cbind] in Hcp; try discriminate.
       destruct (const_of a') eqn:Eca.
       { destruct (fold_un (cp_arith E) o z); cbn [cbind] in Hcp; inversion Hcp; subst ae; discriminate. }
-      inversion Hcp; subst ae. destruct o; cbn [swap_safe] in Hss; [discriminate|].
-      change (T (AUn Not None a')) with (EUn Not (T a')). cbn [eval eval_body].
-      eapply sim_bind; [apply (HE F1 E a a' s t); try assumption; (clear - HF1; lia)|]. intros v v' s1 t1 _ Hv Hs1. subst v'.
-      apply sim_bool_of. intros b. apply sim_ret; [reflexivity|exact Hs1].
+      inversion Hcp; subst ae. cbn [swap_safe] in Hss. destruct o.
+      + (* unary minus: -x becomes 0 - x, whose operand x is evaluated under the operands' footprint bookkeeping *)
+        change (T (AUn Neg None a')) with (EBin Minus (ENum 0) (T a')). intros Ho.
+        rewrite eval_bin_unfold by discriminate. cbn [eval eval_body] in Ho |- *.
+        destruct F1 as [|[|[|f2]]]; try (exfalso; clear - HF1; lia).
+        assert (Hf2 : (f * 4 <= S f2)%nat) by (clear - HF1; lia).
+        rewrite operands2. change (eval (S (S f2)) ge' (ENum 0) (set_cur t eff0)) with (Ret (Vint (signed32 0)) (set_cur t eff0)). cbv zeta.
+        assert (CS : forall x k, cur (set_cur x k) = k) by (intros x k; destruct x; reflexivity).
+        rewrite <- ?(st_eq_start s t Hst). repeat rewrite CS. repeat rewrite same_set_cur.
+        set (s0 := set_cur s eff0) in *.
+        assert (Hfr0 : FR (cur s) s0 s).
+        { split; [unfold s0; apply same_set_cur|]. unfold s0. rewrite CS. apply eff_union_eff0. }
+        pose proof (proj1 (frame_all (cur s) ge f) a s0 s Hfr0) as Hfr.
+        pose proof (HE (S f2) E a a' s0 s0 Hf2 Ea Hss Hrng Hfi (st_eq_refl s0)) as Hsim.
+        destruct (eval f ge a s) as [v s1|k s1|u] eqn:Eas; cbn [bind rcase] in Ho; [| |exfalso; exact Ho].
+        * destruct (eval f ge a s0) as [v0 sa|k0 sa|u0]; cbn in Hfr; try contradiction. destruct Hfr as [Hv Hfr]. subst v0.
+          specialize (Hsim I). destruct (eval (S f2) ge' (T a') s0) as [v' tx|k' tx|u']; cbn in Hsim; try contradiction.
+          destruct Hsim as [Hv Hsx]. subst v'. rewrite conflicts2, conflict_eff0_l. cbn [bind rcase kbin].
+          destruct v; try (exfalso; exact Ho). cbn [int_of binop_ans] in *. change (signed32 0) with 0 in *.
+          destruct (in_int (0 - n)); [|exfalso; exact Ho]. cbn. split; [reflexivity|].
+          destruct Hfr as [Hf1 Hf2']. destruct Hsx as [Hx1 Hx2]. apply st_eq_set_cur.
+          -- rewrite <- Hf1. exact Hx1.
+          -- eapply eff_eq_trans; [apply eff_eq_sym; exact Hf2'|].
+             apply eff_eq_sym. eapply eff_eq_trans; [apply eff_union_eq; [apply eff_union_eff0|apply eff_eq_refl]|].
+             apply eff_union_eq; [apply eff_eq_sym; apply Hst|apply eff_eq_sym; exact Hx2].
+        * destruct (eval f ge a s0) as [v0 sa|k0 sa|u0]; cbn in Hfr; try contradiction. destruct Hfr as [Hk Hfr]. subst k0.
+          specialize (Hsim I). destruct (eval (S f2) ge' (T a') s0) as [v' tx|k' tx|u']; cbn in Hsim; try contradiction.
+          destruct Hsim as [Hk Hsx]. subst k'. cbn. split; [reflexivity|]. rewrite <- Hfr. exact Hsx.
+      + change (T (AUn Not None a')) with (EUn Not (T a')). cbn [eval eval_body].
+        eapply sim_bind; [apply (HE F1 E a a' s t); try assumption; (clear - HF1; lia)|]. intros v v' s1 t1 _ Hv Hs1. subst v'.
+        apply sim_bool_of. intros b. apply sim_ret; [reflexivity|exact Hs1].
     - (* EBin *) destruct (cp_expr E l) as [l'| |] eqn:El; cbn [cbind] in Hcp; try discriminate.
       destruct (cp_expr E r) as [r'| |] eqn:Er; cbn [cbind] in Hcp; try discriminate.
       assert (Hae : ae = ABin o None l' r').
@@ -1222,18 +1633,6 @@ Section StepStmt.
   Qed.
 End StepStmt.
 
-Lemma inter_sym a b : inter_str a b = inter_str b a.
-Proof. apply eq_true_iff_eq. rewrite !inter_spec. split; intros (x & H1 & H2); exists x; auto. Qed.
-Lemma conflict_sym a b : conflict a b = conflict b a.
-Proof.
-  unfold conflict. rewrite (inter_sym (e_wr a) (e_wr b)), (andb_comm (e_io a)).
-  destruct (inter_str (e_wr a) (e_rd b)), (inter_str (e_wr b) (e_wr a)), (inter_str (e_wr b) (e_rd a)), (e_io b && e_io a); reflexivity.
-Qed.
-Lemma conflict_eff0_r a : conflict a eff0 = false.
-Proof. unfold conflict, eff0. cbn. rewrite !inter_nil_r, andb_false_r. reflexivity. Qed.
-Lemma conflict_eff0_l a : conflict eff0 a = false.
-Proof. rewrite conflict_sym. apply conflict_eff0_r. Qed.
-
 (* call-freeness survives the passes *)
 Lemma call_free_cp E : forall e ae, cp_expr E e = COk ae -> acall_free ae = true -> call_free e = true.
 Proof.
@@ -1266,30 +1665,6 @@ Proof. intros H. apply (call_free_T2 ae H). Qed.
 
 Definition swapped (vs vs' : list value) : Prop := exists a b, vs = [a; b] /\ vs' = [b; a].
 
-(* operands of a two-element list, unfolded: first element at fuel f, second at fuel f1, f = S f1, f1 = S f2 *)
-Lemma operands2 g f2 a b s :
-  operands (evals (S (S (S f2))) g) [a; b] s =
-  match eval (S (S f2)) g a (set_cur s eff0) with
-  | Ret va sa =>
-      let s1 := set_cur sa (eff_union (cur s) (cur sa)) in
-      match eval (S f2) g b (set_cur s1 eff0) with
-      | Ret vb sb =>
-          let s2 := set_cur sb (eff_union (cur s1) (cur sb)) in
-          if conflicts [cur sa; cur sb] then Fail OrderDependent else Ret [va; vb] s2
-      | Halt c sb => if e_io (cur sa) then Fail OrderDependent else Halt c sb
-      | Fail u => Fail u
-      end
-  | Halt c sa => if harmless b then Halt c sa else Fail OrderDependent
-  | Fail u => Fail u
-  end.
-Proof.
-  unfold operands. cbn [evals evals_body]. unfold with_eff at 1.
-  destruct (eval (S (S f2)) g a (set_cur s eff0)) as [va sa|c sa|u]; cbn [rcase bind]; [| |reflexivity].
-  - unfold with_eff. destruct (eval (S f2) g b (set_cur (set_cur sa (eff_union (cur s) (cur sa))) eff0)) as [vb sb|c sb|u]; cbn [rcase bind snd fst map]; try reflexivity.
-    destruct (e_io (cur sa)); reflexivity.
-  - cbn [forallb]. rewrite andb_true_r. destruct (harmless b); reflexivity.
-Qed.
-
 Lemma eval1_no_halt g e s c s' : eval 1 g e s <> Halt c s'.
 Proof.
   destruct e as [n|b|bs|x|a i|fn args|n args|o a|o l r]; cbn [eval eval_body]; try discriminate.
@@ -1314,12 +1689,6 @@ Proof.
     + exact (eval1_no_halt g a _ c sa E1).
     + exact X.
 Qed.
-
-Lemma conflicts2 a b : conflicts [a; b] = conflict a b.
-Proof. cbn. rewrite !orb_false_r. reflexivity. Qed.
-Lemma cur_set_cur s c : cur (set_cur s c) = c. Proof. destruct s; reflexivity. Qed.
-Lemma eff_eq_union_l0 c a : eff_eq a eff0 -> eff_eq (eff_union c a) c.
-Proof. intros H. eapply eff_eq_trans; [apply eff_union_eq; [apply eff_eq_refl|exact H]|apply eff_union_eff0]. Qed.
 
 Section Swap.
   Variables ge ge' : genv.
@@ -1356,7 +1725,7 @@ Section Swap.
         destruct (eval (S f2) ge r s0) as [vr sr|c sr|u] eqn:Er; [| |exfalso; exact Ho].
         * pose proof (SR (S (S F3)) HF2 _ eq_refl I) as Hrr.
           destruct (eval (S (S F3)) ge' (T r') s0) as [vr' tr|c tr|u]; cbn in Hrr; try contradiction. destruct Hrr as [Hv Hsrtr]. subst vr'.
-          rewrite (T_const ge' E l l' cl Hl Ecl Hsl Hcl F3). rewrite !conflicts2 in *. rewrite ?cur_set_cur in *.
+          rewrite (T_const ge' E l l' cl Hl Ecl HA Hcl F3). rewrite !conflicts2 in *. rewrite ?cur_set_cur in *.
           rewrite conflict_eff0_r. rewrite (conflict_eq _ eff0 _ (cur sr) Fl0 (eff_eq_refl _)), conflict_eff0_l in *.
           cbn. split; [exists (Vint cl), vr; auto|]. rewrite ?cur_set_cur.
           apply st_eq_set_cur.
@@ -1369,9 +1738,9 @@ Section Swap.
           rewrite HA. exact Hrr.
       + pose proof (CLl f s0 _ Hfi0 El I) as Hx. cbn in Hx. contradiction.
     - (* the right operand is a literal-like constant *)
-      unfold lit_like in HB. destruct (const_of r') as [cr|] eqn:Ecr; [|discriminate].
+      unfold lit_like in HB. destruct (const_of r') as [cr|] eqn:Ecr; [|discriminate]. fold (T r') in HB.
       destruct (const_eval ge E Hrng r r' cr Hr Ecr) as [Hcr CLr].
-      rewrite (T_const ge' E r r' cr Hr Ecr Hsr Hcr (S F3)). cbv zeta. rewrite ?cur_set_cur, ?same_set_cur.
+      rewrite (T_const ge' E r r' cr Hr Ecr HB Hcr (S F3)). cbv zeta. rewrite ?cur_set_cur, ?same_set_cur.
       assert (Hs00 : set_cur s0 eff0 = s0) by (unfold s0; apply same_set_cur).
       assert (Hc0 : cur s0 = eff0) by (unfold s0; apply cur_set_cur).
       rewrite ?Hs00, ?Hc0.
@@ -1947,8 +2316,10 @@ Section Program.
   Qed.
 End Program.
 
+Lemma finish_eq0 s t c : set_cur s eff0 = set_cur t eff0 -> finish s c = finish t c.
+Proof. intros H. unfold finish. destruct s, t; cbn in *. inversion H; subst. reflexivity. Qed.
 Lemma finish_eq s t c : st_eq s t -> finish s c = finish t c.
-Proof. intros H. apply st_eq_fields in H. destruct H as (_ & _ & Ho & _ & Hn & _). unfold finish. rewrite Ho, Hn. reflexivity. Qed.
+Proof. intros H. apply finish_eq0. apply st_eq_start. exact H. Qed.
 
 (* THE WHOLE-PROGRAM THEOREM (fuel-generalised): a behaviour of the source program is a behaviour of the program the
    front-end passes make of it *)
@@ -1977,7 +2348,7 @@ Proof.
   - specialize (Hsim I). destruct (invoke (exec (f * 4) ge') ge' false "main"%string [] _) as [v' t|c t|u]; cbn in Hsim; try contradiction.
     destruct Hsim as [_ Hs]. rewrite <- (finish_eq s t 0 Hs). exact Hrun.
   - specialize (Hsim I). destruct (invoke (exec (f * 4) ge') ge' false "main"%string [] _) as [v' t|c' t|u]; cbn in Hsim; try contradiction.
-    destruct Hsim as [Hc Hs]. subst c'. rewrite <- (finish_eq s t c Hs). exact Hrun.
+    destruct Hsim as [Hc Hs]. subst c'. rewrite <- (finish_eq0 s t c Hs). exact Hrun.
 Qed.
 
 Theorem front_preserves_partial p p' f steps depth inp b :
